@@ -2616,3 +2616,118 @@ pub fn vp_roundtrip_nack(nack: &crate::feedback::nack::NackBuilder, sender: u32,
 }
 
 } // verus!
+
+verus! {
+
+// ---- C20 as verified programs: two routes to the same configuration announce the same size and write the same bytes ----
+// (setters in a different order, junk values overwritten, owned variants called after the other fields were set,
+//  owned vs borrowed FCI, the PacketBuilder wrapper, a one-member compound)
+
+// @LEMMA C20
+pub fn vp_c20_bye<'a>(reason: &'a str, s1: u32, s2: u32, padding: u8)
+{
+    let a = crate::Bye::builder().padding(padding).add_source(s1).add_source(s2).reason(reason);
+    let b = crate::Bye::builder().reason("x").add_source(s1).padding(77).add_source(s2).padding(padding).reason_owned(reason);
+    assert(a.sources@ =~= b.sources@);
+    assert(cow_str_bytes(&a.reason) == cow_str_bytes(&b.reason));
+    assert(a.spec_calc() == b.spec_calc());
+    assert(a.spec_bytes() == b.spec_bytes());
+}
+
+// @LEMMA C20
+pub fn vp_c20_app<'a>(ssrc: u32, name: &'a str, data: &'a [u8], subtype: u8, padding: u8)
+{
+    let a = crate::App::builder(ssrc, name).padding(padding).subtype(subtype).data(data);
+    let b = crate::App::builder(ssrc, name).data(data).subtype(3).padding(8).subtype(subtype).padding(padding);
+    assert(a.ssrc == b.ssrc && a.padding == b.padding && a.subtype == b.subtype && a.name == b.name && a.data@ == b.data@);
+    assert(a.spec_calc() == b.spec_calc());
+    assert(a.spec_bytes() == b.spec_bytes());
+}
+
+// @LEMMA C20
+pub fn vp_c20_sr(ssrc: u32, ntp: u64, rtp: u32, pc: u32, oc: u32, padding: u8, rb_ssrc: u32, lost: u32)
+{
+    let a = crate::SenderReport::builder(ssrc).padding(padding).ntp_timestamp(ntp).rtp_timestamp(rtp).packet_count(pc).octet_count(oc)
+        .add_report_block(crate::ReportBlock::builder(rb_ssrc).cumulative_lost(lost).fraction_lost(1));
+    let b = crate::SenderReport::builder(ssrc).octet_count(1).packet_count(2)
+        .add_report_block(crate::ReportBlock::builder(rb_ssrc).fraction_lost(9).fraction_lost(1).cumulative_lost(lost))
+        .octet_count(oc).packet_count(pc).rtp_timestamp(rtp).ntp_timestamp(ntp).padding(padding);
+    assert(a.report_blocks@.len() == 1 && b.report_blocks@.len() == 1);
+    assert(a.report_blocks@[0] == b.report_blocks@[0]);
+    assert(a.report_blocks@ =~= b.report_blocks@);
+    assert(a.ssrc == b.ssrc && a.padding == b.padding && a.ntp_timestamp == b.ntp_timestamp && a.rtp_timestamp == b.rtp_timestamp
+        && a.packet_count == b.packet_count && a.octet_count == b.octet_count);
+    assert(a.spec_calc() == b.spec_calc());
+    assert(a.spec_bytes() == b.spec_bytes());
+}
+
+// @LEMMA C20
+pub fn vp_c20_sdes_item<'a>(t: u8, value: &'a str, prefix: &'a [u8], ssrc: u32)
+{
+    broadcast use crate::vp::group_cow;
+    let a = crate::SdesItem::builder(t, value).prefix(prefix);
+    let b = crate::SdesItem::builder(t, value).prefix(&[7u8]).prefix(prefix).into_owned();
+    assert(cow_u8(&a.prefix) == cow_u8(&b.prefix) && cow_str_bytes(&a.value) == cow_str_bytes(&b.value) && a.type_ == b.type_);
+    assert(item_calc(&a) == item_calc(&b));
+    assert(img_item(&a) == img_item(&b));
+    // at chunk level: add_item vs add_item_owned
+    let ca = crate::SdesChunk::builder(ssrc).add_item(a);
+    let cb = crate::SdesChunk::builder(ssrc).add_item_owned(crate::SdesItem::builder(t, value).prefix(prefix));
+    proof {
+        reveal_with_fuel(items_calc, 2);
+        reveal_with_fuel(items_img, 2);
+    }
+    assert(chunk_calc(&ca) == chunk_calc(&cb));
+    assert(img_chunk(&ca) == img_chunk(&cb));
+}
+
+// @LEMMA C20
+pub fn vp_c20_rpsi<'a>(pt: u8, data: &'a [u8], overrun: u8)
+{
+    broadcast use crate::vp::group_cow;
+    let a = crate::Rpsi::builder().payload_type(pt).native_data(data, overrun);
+    let b = crate::Rpsi::builder().native_data(data, 1).payload_type(pt).native_data_owned(data, overrun);
+    assert(cow_u8(&a.native_bit_string) == cow_u8(&b.native_bit_string));
+    assert(a.spec_calc() == b.spec_calc());
+    assert(a.spec_bytes() == b.spec_bytes());
+}
+
+// @LEMMA C20
+pub fn vp_c20_nack_owned(x: u16, y: u16, sender: u32, media: u32, padding: u8)
+{
+    let n1 = crate::Nack::builder().add_rtp_sequence(x).add_rtp_sequence(y);
+    let n2 = crate::Nack::builder().add_rtp_sequence(y).add_rtp_sequence(x).add_rtp_sequence(y);
+    assert(n1.rtp_seq@ =~= n2.rtp_seq@);
+    let ghost want_calc = n1.spec_calc();
+    let ghost want_bytes = n1.spec_bytes();
+    assert(n2.spec_calc() == want_calc && n2.spec_bytes() == want_bytes);
+    let a = crate::TransportFeedback::builder(&n1).sender_ssrc(sender).media_ssrc(media).padding(padding);
+    let b = crate::TransportFeedback::builder_owned(n2).padding(4).padding(padding).media_ssrc(media).sender_ssrc(sender);
+    assert(a.spec_calc() == b.spec_calc());
+    assert(a.spec_bytes() == b.spec_bytes());
+}
+
+// @LEMMA C20
+pub fn vp_c20_wrappers(ssrc: u32, padding: u8)
+{
+    let a = crate::ReceiverReport::builder(ssrc).padding(padding);
+    let a2 = crate::ReceiverReport::builder(ssrc).padding(padding);
+    assert(a2.report_blocks@ =~= a.report_blocks@);
+    assert(a2.spec_calc() == a.spec_calc() && a2.spec_bytes() == a.spec_bytes());
+    let pb: crate::PacketBuilder = a2.into();
+    assert(pb.spec_calc() == a.spec_calc());
+    assert(pb.spec_bytes() == a.spec_bytes());
+    let a3 = crate::ReceiverReport::builder(ssrc).padding(padding);
+    assert(a3.report_blocks@ =~= a.report_blocks@);
+    assert(a3.spec_calc() == a.spec_calc() && a3.spec_bytes() == a.spec_bytes());
+    let cb = crate::Compound::builder().add_packet(a3);
+    proof {
+        reveal_with_fuel(crate::compound::cb_calc, 2);
+        reveal_with_fuel(crate::compound::cb_bytes, 2);
+        assert(cb.packets@.len() == 1);
+    }
+    assert(cb.spec_bytes() =~= a.spec_bytes());
+    assert(cb.spec_calc() == a.spec_calc());
+}
+
+} // verus!
